@@ -182,7 +182,7 @@ func TestC16(t *testing.T) {
 		}
 	}
 
-	perType := vf.N(24, 80000)
+	perType := vf.N(60, 80000)
 	for typ := uint8(0); typ <= 15; typ++ {
 		typ := typ
 		r.Rapid(t, typeName(typ), perType, func(t *rapid.T) {
